@@ -119,8 +119,66 @@ def run(ctx):
         sq = O.from_gp(sq.g, sq.p)
         if any(c != 'I' for c in sq[0]) or sq[1] != (2 * got[1]) % 4:
             ctx.fail('Pauli.__matmul__', 'square is not i^(2p) identity', dict(op=got, square=sq))
-    # ---- histories: operands that have been multiplied before and changed in place since (caches, aliasing)
+    # ---- the chain kernel (pauli_combine) on arbitrary lists: repeated operators, dependent lists, phased identities, partial
+    #      products that pass through a multiple of the identity (X.Y.Z = iI, iX.iX = -I)
     import hutil as H
+    for _ in range(ctx.budget(150, 2000)):
+        n = rng.choice([1, 1, 2, 2, 3, 4, 6])
+        pool = [G.rand_op(rng, n) for _ in range(rng.randrange(1, 4))]
+        pool.append((tuple('I' * n), rng.randrange(4)))
+        if n == 1:
+            pool += [(('X',), 0), (('Y',), 0), (('Z',), 0)]
+        L = rng.choice([2, 3, 4, 6, 9])
+        rows = [rng.choice(pool) for _ in range(L)]
+        C = np.array([[1 if rng.random() < 0.7 else 0 for _ in range(L)] for _ in range(3)], dtype=np.int_)
+        C[0, :] = 1
+        gs_in, ps_in = G.rows_gp(rows)
+        gs_in = np.array(gs_in, dtype=np.int_); ps_in = np.array(ps_in, dtype=np.int_)
+        ctx.case(('combine', tuple(rows), str(C.tolist())), True, sample=dict(op='pauli_combine', length=L, N=n))
+        try:
+            go, po = U.pauli_combine(C, gs_in, ps_in)
+        except Exception as e:
+            ctx.fail('pauli_combine', 'implementation raised %r' % e, dict(rows=rows, C=C.tolist())); continue
+        for c, g_, p_ in zip(C, go, po):
+            got = O.from_gp(g_, p_)
+            ctx.q('combine', 'combine %d %s %s' % (n, E.ebits(c), H.erows_ops(rows)), got, lambda s: O.from_gp(*E.dpauli(s)))
+            want = O.oprod([r for b, r in zip(c, rows) if b], n)
+            if got != want:
+                ctx.fail('pauli_combine', 'chain product of the selected operators drifts from the matrix product (the partial products pass through a multiple of the identity)',
+                         dict(rows=rows, selection=c.tolist(), got=got, want=want))
+    # ---- mixed operand forms: the same operator written as Pauli (phase in p), monomial (phase or scale in c), polynomial
+    def _forms(op):
+        yield 'Pauli', impl.pauli(op), 1
+        for k in range(4):
+            yield 'PauliMonomial(c=i^%d)' % k, pc.PauliMonomial(impl.garr(op[0]), (op[1] - k) % 4).set_c(1j ** k), 1
+        yield 'PauliMonomial(c=2.5)', pc.PauliMonomial(impl.garr(op[0]), op[1]).set_c(2.5), 2.5
+        yield 'PauliPolynomial', impl.poly([(op, 1.0)]), 1
+    def _value(obj, n):
+        if isinstance(obj, pc.PauliPolynomial):
+            d = {}
+            for g, p, c in zip(np.asarray(obj.gs), np.asarray(obj.ps), np.asarray(obj.cs)):
+                l, k = O.from_gp(g, p)
+                d[l] = d.get(l, 0) + complex(c) * 1j ** k
+            return {l: v for l, v in d.items() if abs(v) > 1e-12}
+        l, k = O.from_gp(obj.g, obj.p)
+        return {l: complex(getattr(obj, 'c', 1)) * 1j ** k}
+    for _ in range(ctx.budget(60, 800)):
+        n = rng.choice([1, 2, 3, 5])
+        a, b = G.rand_op(rng, n), G.rand_op(rng, n)
+        for (na, fa, sa) in _forms(a):
+            for (nb, fb, sb) in _forms(b):
+                ctx.case(('forms', a, b, na, nb), True, sample=dict(op='matmul forms', left=na, right=nb))
+                try:
+                    pr = fa @ fb
+                    got = _value(pr, n)
+                except Exception as e:
+                    ctx.fail('__matmul__', 'implementation raised %r for %s @ %s' % (e, na, nb), dict(a=a, b=b)); continue
+                l, k = O.omul(a, b)
+                want = {l: sa * sb * 1j ** k}
+                if set(got) != set(want) or abs(got[l] - want[l]) > 1e-9:
+                    ctx.fail('__matmul__', '%s @ %s is not the matrix product (coefficient or phase of an operand lost)' % (na, nb),
+                             dict(a=a, b=b, left=na, right=nb, got={''.join(x): str(v) for x, v in got.items()}, want={''.join(x): str(v) for x, v in want.items()}))
+    # ---- histories: operands that have been multiplied before and changed in place since (caches, aliasing)
     for _ in range(ctx.budget(120, 1500)):
         n = rng.choice([1, 2, 3, 4, 6])
         vals = [G.rand_op(rng, n) for _ in range(rng.randrange(2, 5))]
